@@ -190,7 +190,21 @@ def apply_column_union(eng, files):
     return applied, unparsed
 
 
+_ENGINES = {}
+
+
 def load_batch_schema(repo, rand=None, clock=None):
+    """one engine per process and repository root: later calls reset it (tables emptied, compiled routines kept)."""
+    eng = _ENGINES.get(repo)
+    if eng is not None:
+        eng.reset(rand, clock)
+        return eng
+    eng = _load_batch_schema(repo, rand, clock)
+    _ENGINES[repo] = eng
+    return eng
+
+
+def _load_batch_schema(repo, rand=None, clock=None):
     eng = Engine(rand=rand, clock=clock)
     skipped = load_tables(eng, repo)
     files = migration_files(repo)
